@@ -32,6 +32,12 @@ type HSResult struct {
 // an in-memory connection. Either config may be nil when the caller drives that
 // side itself through the returned connections (scripted peer).
 func Handshake(ccfg, scfg *security.SecurityConfig, limit time.Duration) *HSResult {
+	return HandshakeHook(ccfg, scfg, limit, nil)
+}
+
+// HandshakeHook is Handshake with a hook that may adjust the server's Authenticator before it runs
+// (e.g. install ServerConfigForCommand).
+func HandshakeHook(ccfg, scfg *security.SecurityConfig, limit time.Duration, serverHook func(*security.Authenticator)) *HSResult {
 	pa, pb := NextPorts()
 	cc, sc := NewBufPipe(pa, pb)
 	r := &HSResult{CConn: cc, SConn: sc}
@@ -54,6 +60,9 @@ func Handshake(ccfg, scfg *security.SecurityConfig, limit time.Duration) *HSResu
 	if scfg != nil {
 		r.SStream = stream.NewStream(sc)
 		r.SAuth = security.NewAuthenticator(scfg, r.SStream)
+		if serverHook != nil {
+			serverHook(r.SAuth)
+		}
 		go func() {
 			r.SNeg, r.SErr = r.SAuth.ServerHandshake(ctx)
 			if r.SErr != nil {
